@@ -255,9 +255,18 @@ func checkC08(c C08Case) h.Outcome {
 			o.Violation = h.V(sig(mismatchSig(d)), "layout %d: %s", i, d)
 			return o
 		}
-		wantRespFlag := c.Issue.Placement != "assertions"
-		if resp.SignatureValidated != wantRespFlag {
-			o.Violation = h.V("flag-mismatch", "layout %d: Response.SignatureValidated=%v want %v", i, resp.SignatureValidated, wantRespFlag)
+		// flags: only what C04 states — a Response flag needs a signed Response; with the Response flag false
+		// every assertion must be flagged, which needs individually signed assertions
+		allFlagged := true
+		for _, a := range resp.Assertions {
+			allFlagged = allFlagged && a.SignatureValidated
+		}
+		switch {
+		case resp.SignatureValidated && c.Issue.Placement == "assertions":
+			o.Violation = h.V("flag-mismatch", "layout %d: Response.SignatureValidated=true for an unsigned Response", i)
+			return o
+		case !resp.SignatureValidated && (!allFlagged || c.Issue.Placement == "response"):
+			o.Violation = h.V("flag-mismatch", "layout %d: Response flag false but assertion flags %v (placement %s)", i, allFlagged, c.Issue.Placement)
 			return o
 		}
 		results = append(results, resp)
